@@ -1,6 +1,7 @@
 import OnlVerif.Lemmas.KernelStep
 import OnlVerif.Lemmas.KAccess
 import OnlVerif.Props.C01
+import OnlVerif.Lemmas.OnceRun
 /-!
 # C04 — interrupts reach a live process once, in issue order, ahead of ordinary events
 
@@ -123,5 +124,54 @@ theorem never_before_start (s : KState ℚ σ) (self : EvId) (st : σ) (s2 : KSt
         have := hx.eid_le
         have h2 : (doCall s self (.spawn st)).1.eid = s.eid + 1 := by simp only [doCall]; rfl
         omega
+
+/-! ## global: after an interrupt the old target no longer resumes the process
+
+Hypotheses as in `Props/C02.lean`: `Once.Inv0` for the initial state, `Once.SafeRun` for the run. -/
+
+/-- **The detachment is complete**: in any state that satisfies the kernel invariant (also in the middle of a step),
+a live victim `p` waiting for `t` is registered on `t` exactly once and nowhere else, so after
+`callbacks.remove(_resume)` it is registered nowhere at all — whatever is processed next cannot resume it before it
+has yielded again. -/
+theorem interrupt_detaches_completely (g : Once.Ghost) (s : KState ℚ σ) (hi : Once.Inv g s) (hg : g.run = none)
+    (p t : EvId) (pr : ProcRec σ) (hp : s.proc? p = some pr) (ht : pr.target = some t) (hlive : (s.ev p).out = none) :
+    ∀ e L, ((s.eraseCb t (.resume p)).ev e).cbs = some L → Cb.resume p ∉ L :=
+  ((hi.detach p t pr hg hp ht hlive).c.pend p (Or.inr rfl)).2.2
+
+/-- **After an interrupt the process is no longer resumed by the event it was waiting for unless it yields it again**
+(global form): in every state between two steps of a safe run, the callback list of an event `t` holds `_resume p`
+only if `t` is the *current* target of `p` — the event `p` yielded last.  So once the interrupt burst has ended with
+`p` waiting for something else (or finished), processing the old target `t`, whenever that happens, does not resume
+`p`; and if `p` did yield `t` again it is resumed exactly once. -/
+theorem no_resume_by_old_target (body : σ → Resume → Burst ℚ σ) (fuel : Nat) (s0 s : KState ℚ σ)
+    (h0 : Once.Inv0 false s0) (hsafe : Once.SafeRun body fuel s0) (hr : KReach body fuel s0 s)
+    (t : EvId) (L : List Cb) (p : EvId) (hL : (s.ev t).cbs = some L) :
+    (∀ pr, s.proc? p = some pr → pr.target ≠ some t → Cb.resume p ∉ L) ∧
+    ((s.ev p).out ≠ none → Cb.resume p ∉ L) ∧
+    (Cb.resume p ∈ L → L.count (.resume p) = 1) := by
+  have hi := (Once.Inv0.reach body fuel h0 (fun h => by cases h) hsafe (fun h => by cases h) hr).regOnce
+  refine ⟨?_, ?_, ?_⟩
+  · intro pr hp hne hm
+    obtain ⟨_, ⟨pr', h1, h2⟩, _⟩ := hi t L p hL hm
+    rw [hp] at h1; cases h1
+    exact hne h2
+  · intro ho hm
+    exact ho (hi t L p hL hm).1
+  · intro hm
+    exact (hi t L p hL hm).2.2
+
+/-- **…while the event keeps every other waiter**: removing the victim's registration leaves the registration of every
+other process on that event (and on every other event) exactly as it was. -/
+theorem detach_keeps_other_waiters (s : KState ℚ σ) (t p p' e : EvId) (hne : p' ≠ p) (L : List Cb)
+    (hL : (s.ev e).cbs = some L) :
+    ∃ L', ((s.eraseCb t (.resume p)).ev e).cbs = some L' ∧ L'.count (.resume p') = L.count (.resume p') ∧
+      ((s.eraseCb t (.resume p)).ev e).out = (s.ev e).out := by
+  have ho : ((s.eraseCb t (.resume p)).ev e).out = (s.ev e).out := Once.out_setEv s t e _ rfl
+  rw [Once.cbs_eraseCb]
+  split
+  · rename_i h; subst h
+    rw [hL]
+    exact ⟨L.erase (.resume p), rfl, List.count_erase_of_ne (fun h => hne (by cases h; rfl)), ho⟩
+  · exact ⟨L, hL, rfl, ho⟩
 
 end C04
